@@ -140,4 +140,161 @@ theorem C12_host_answers_once {h : Host} {e : Ev} {lis : Listener} {pkts : List 
   refine ⟨take_deferredOf_same _ _ _, take_timers_same _ _ _, msg, ?_⟩
   rw [take_pkts, deferredOf_congr h1 addr]
 
+/-! ## The one-second clause on the wire: what holds per cause, and the two ways the literal sentence fails (second review, item 3)
+
+English: "a record the host saw multicast less than one second before the query arrived is not multicast again until at least one
+second after that sighting".  Read on its words it speaks about **every** multicast transmission of the record — as an answer or as
+an additional, by whichever block — once a query has arrived for whose reply the record is wanted.  The code implements the rule
+per *cause* and for *answers* only: `_has_mcast_record_in_last_second` is asked for the answers of the query being assembled; the
+additionals of an answer are never tested, and a group already pending in a queue is not re-examined when the record is seen in
+the meantime.  Decision: these are **findings** (deviations from the sentence), not readings —
+`C12:additional-remulticast-within-1s` and `C12:pending-batch-remulticast-within-1s` in `known_findings.json`; each has a
+`…_refuted` witness below, and `C12_host_answer_cause` is the partial statement: every multicast *answer* has a causing query of
+the run, and it is with respect to *that* query (and sightings before its first packet: D12b) that the one-second rule holds. -/
+
+/-- each block of a run comes with the state it started from, in which the model accepts it -/
+theorem HRun.mem_states {h : Host} {c : Int} {evs : List Ev} {h' : Host} {c' : Int} {tr : List (Ev × StepOut)}
+    (hr : HRun h c evs h' c' tr) : ∀ p ∈ tr, ∃ st, (st, p.1, p.2) ∈ traceStates h tr ∧ st.step p.1 = .ok p.2 := by
+  induction hr with
+  | nil h c => intro p hp; cases hp
+  | @cons h clock e es r h' c' tr hax hs _ ih =>
+    intro p hp
+    rcases List.mem_cons.mp hp with rfl | hp
+    · exact ⟨h, List.mem_cons_self, hs⟩
+    · obtain ⟨st, h1, h2⟩ := ih p hp
+      exact ⟨st, List.mem_cons_of_mem _ h1, h2⟩
+
+theorem mcast_mem_immediateOuts {qa : QA} {addr port id nq : Nat} {us : Bool} {ans adds : List RecId}
+    (h : Out.mcast ans adds ∈ immediateOuts qa addr port id nq us) : Out.mcast ans adds = Out.ofMcast qa.mcastNow := by
+  simp only [immediateOuts, List.mem_append] at h
+  rcases h with h | h
+  · split at h
+    · cases h
+    · simp at h
+  · split at h
+    · cases h
+    · simpa using h
+
+/-- **`_partial`: every multicast answer has a cause, and the timing rules hold with respect to that cause.**  In a run from the
+initial state, whenever a block multicasts a record `x` **as an answer**, some query assembled in the run put it there:
+either this very block assembled it and `async_response` classified `x` "now" (`C12_immediate`: a probe, or not seen in the second
+before that query's last packet and a single SRV/A/AAAA/NSEC question; or the QU rule, D12), or an earlier block did and classified
+`x` aggregate (then `first + 20 ≤ m ≤ c + 500`) or seen-in-the-last-second (then `first + 1020 ≤ m ≤ c + 1200`, hence at least one
+second after every sighting that precedes that query's first packet — `C12_host_one_sec_timing_partial`).
+Hypotheses that make this weaker than the English, each a listed finding: the record travels **as an answer** (additionals are not
+covered: `C12_one_sec_additional_refuted`), and the rule is relative to the **causing** query (a later query that saw the record
+in between does not hold the earlier batch back: `C12_one_sec_pending_batch_refuted`); sightings between the first and the last
+packet of the causing query: D12b. -/
+theorem C12_host_answer_cause {c0 : Int} {evs : List Ev} {h' : Host} {c' : Int} {tr : List (Ev × StepOut)}
+    (hr : HRun {} c0 evs h' c' tr) :
+    ∀ p ∈ tr, ∀ ans adds, Out.mcast ans adds ∈ p.2.outs → ∀ x ∈ ans,
+      ∃ st ∈ traceStates {} tr, ∃ pkts port first qa, Assembled st.1 st.2.1 pkts port first qa ∧
+        ( (st.2.1 = p.1 ∧ st.2.2 = p.2 ∧ x ∈ qa.mcastNow.keys)
+        ∨ (x ∈ qa.mcastAgg.keys ∧ st.2.1.time ≤ p.1.time ∧ first.now + 20 ≤ p.1.time ∧ p.1.time ≤ st.2.1.time + 500)
+        ∨ (x ∈ qa.mcastLast.keys ∧ st.2.1.time ≤ p.1.time ∧ first.now + 1020 ≤ p.1.time ∧ p.1.time ≤ st.2.1.time + 1200) ) := by
+  intro p hp ans adds ho x hx
+  obtain ⟨st, hst, hstep⟩ := hr.mem_states p hp
+  obtain ⟨a, hd, hperf⟩ := step_decide hstep
+  cases a with
+  | idle lis => rw [(perform_idle hperf).2] at ho; cases ho
+  | defer lis d => rw [(perform_defer hperf).2] at ho; cases ho
+  | remove d recs => rw [(perform_remove hperf).1] at ho; cases ho
+  | ready d =>
+    obtain ⟨s, hs⟩ := decide_ready hd
+    cases d
+    · obtain ⟨b, hb, _, hw⟩ := C12_host_window_aggregate hr p hp s hs _ ho
+      have hans : ans = b.keys := by simp only [Out.ofMcast, Out.mcast.injEq] at hb; exact hb.1
+      obtain ⟨st', hst', pkts, port, first, qa, hasm, h1, h2, h3, h4⟩ := hw x (hans ▸ hx)
+      have ht : p.1.time = s := by rw [hs]; rfl
+      exact ⟨st', hst', pkts, port, first, qa, hasm, Or.inr (Or.inl ⟨h1, by omega, by omega, by omega⟩)⟩
+    · obtain ⟨b, hb, _, hw⟩ := C12_host_window_protected hr p hp s hs _ ho
+      have hans : ans = b.keys := by simp only [Out.ofMcast, Out.mcast.injEq] at hb; exact hb.1
+      obtain ⟨st', hst', pkts, port, first, qa, hasm, h1, h2, h3, h4⟩ := hw x (hans ▸ hx)
+      have ht : p.1.time = s := by rw [hs]; rfl
+      exact ⟨st', hst', pkts, port, first, qa, hasm, Or.inr (Or.inr ⟨h1, by omega, by omega, by omega⟩)⟩
+  | answer lis pkts addr port =>
+    obtain ⟨rest, hasm⟩ := perform_answer hperf
+    cases hqa : asyncResponse pkts (Gen.Reply.ucast_source port) p.1.seen with
+    | none => rw [(assemble_none hasm hqa).1] at ho; cases ho
+    | some qa =>
+      obtain ⟨first, hf, houts, _⟩ := assemble_spec hasm hqa
+      rw [houts] at ho
+      have heq := mcast_mem_immediateOuts ho
+      have hans : ans = qa.mcastNow.keys := by simp only [Out.ofMcast, Out.mcast.injEq] at heq; exact heq.1
+      exact ⟨(st, p.1, p.2), hst, pkts, port, first, qa, ⟨⟨lis, addr, hd⟩, hf, hqa⟩, Or.inl ⟨rfl, rfl, hans ▸ hx⟩⟩
+
+/-- not a packet of a truncated train and not a probe: in a run of such events every assembly is the one packet at hand -/
+def Ev.plain : Ev → Bool
+  | .rx _ _ _ _ _ _ (.query p) _ _ => !p.truncated && !p.isProbe
+  | _ => true
+
+/-- the records a reply multicasts, at once or from a queue: answers and their additionals -/
+def QA.mcastRecords (qa : QA) : List RecId :=
+  (qa.mcastNow ++ qa.mcastAgg ++ qa.mcastLast).keys ++ (qa.mcastNow ++ qa.mcastAgg ++ qa.mcastLast).flatMap (·.2)
+
+/-- **the one-second clause as the English has it** (for ordinary, non-probe queries; no truncated trains anywhere in the run):
+once a query has arrived at `t` for whose reply record `x` is wanted — as an answer or as an additional — and the host saw `x`
+multicast at `s.created`, less than a second before, no block of the run multicasts `x` again (in either section) before
+`s.created + 1000` -/
+def C12_one_sec_wire_full : Prop :=
+  ∀ (c0 : Int) (pre : List Ev) (t : Int) (addr port dataId size : Nat) (hasQu : Bool) (p : Pkt) (seen : SeenMap) (draws : List Int)
+    (post : List Ev) (h' : Host) (outs : List (Int × List Out × List Draw)),
+    (∀ e ∈ pre ++ post, e.plain = true) → p.truncated = false → p.isProbe = false →
+    Host.run {} c0 (pre ++ .rx t addr port dataId size hasQu (.query p) seen draws :: post) = .ok (h', outs) →
+    ∀ qa, asyncResponse [p] (Gen.Reply.ucast_source port) seen = some qa →
+    ∀ x s, seen.get x = some s → s.created ≤ t → t - s.created < 1000 → x ∈ qa.mcastRecords →
+    ∀ o ∈ outs.drop pre.length, ∀ ans adds, Out.mcast ans adds ∈ o.2.1 → x ∈ ans ++ adds → s.created + 1000 ≤ o.1
+
+/-- a PTR question (one candidate answer, record 1, with `adds` as its additionals) as datagram `dataId` arriving at `now` -/
+def ptrQuery (dataId : Nat) (now : Int) (adds : List RecId) : Pkt :=
+  { dataId, now, id := 7, flags := 0, numAuth := 0, nq := 1, q0type := 12,
+    items := [{ qu := false, cands := [{ id := 1, ttl := 4500, adds }] }], known := [] }
+
+/-- **`_refuted`, additionals** (`C12:additional-remulticast-within-1s`): record 2 (say, the SRV) was seen multicast at 700; a PTR
+question arrives at 1000; its answer (record 1) is aggregated and goes out at 1020 **with record 2 as an additional** — 320 ms
+after the sighting.  (Real responder: SRV answered at 5800, PTR question at 6100, reply at 6124 carries the SRV again.) -/
+theorem C12_one_sec_additional_refuted : ¬ C12_one_sec_wire_full := by
+  intro h
+  have hrun : (Host.run {} 1000 ([] ++ Ev.rx 1000 1 5353 1 50 false (.query (ptrQuery 1 1000 [2])) [(2, { created := 700, ttl := 120 })] [20] ::
+      [Ev.qfire 1020 false])).toOption.map (·.2) = some [(1000, [], [Draw.mk 20 120 20]), (1020, [Out.mcast [1] [2]], [])] := by decide
+  cases hx : Host.run {} 1000 ([] ++ Ev.rx 1000 1 5353 1 50 false (.query (ptrQuery 1 1000 [2])) [(2, { created := 700, ttl := 120 })] [20] ::
+      [Ev.qfire 1020 false]) with
+  | error m => rw [hx] at hrun; cases hrun
+  | ok v =>
+    obtain ⟨h', outs⟩ := v
+    rw [hx] at hrun
+    simp only [Except.toOption, Option.map_some, Option.some.injEq] at hrun
+    have := h 1000 [] 1000 1 5353 1 50 false (ptrQuery 1 1000 [2]) [(2, { created := 700, ttl := 120 })] [20] [Ev.qfire 1020 false] h' outs
+      (by decide) (by decide) (by decide) hx _ (by decide : asyncResponse [ptrQuery 1 1000 [2]] (Gen.Reply.ucast_source 5353)
+        [(2, { created := 700, ttl := 120 })] = some { ucast := [], mcastNow := [], mcastAgg := [(1, [2])], mcastLast := [] })
+      2 { created := 700, ttl := 120 } (by decide) (by decide) (by decide) (by decide)
+      (1020, [Out.mcast [1] [2]], []) (by rw [hrun]; decide) [1] [2] (by decide) (by decide)
+    revert this; decide
+
+/-- **`_refuted`, a batch that was already pending** (`C12:pending-batch-remulticast-within-1s`): query A (PTR) arrives at 1000, its
+answer (record 1) is aggregated with draw 120 and waits; the host sees record 1 multicast at 1005; query B for the same record
+arrives at 1010 and is classified "seen in the last second" (protected queue, not before 2030) — but A's pending batch multicasts
+record 1 at 1120, 115 ms after the sighting.  (Real responder: sighting 5805, query 5810, multicast 6300.) -/
+theorem C12_one_sec_pending_batch_refuted : ¬ C12_one_sec_wire_full := by
+  intro h
+  have hrun : (Host.run {} 1000 ([Ev.rx 1000 1 5353 1 50 false (.query (ptrQuery 1 1000 [])) [] [120]] ++
+      Ev.rx 1010 2 5353 2 50 false (.query (ptrQuery 2 1010 [])) [(1, { created := 1005, ttl := 4500 })] [20] ::
+      [Ev.qfire 1120 false])).toOption.map (·.2) =
+      some [(1000, [], [Draw.mk 20 120 120]), (1010, [], [Draw.mk 20 120 20]), (1120, [Out.mcast [1] []], [])] := by decide
+  cases hx : Host.run {} 1000 ([Ev.rx 1000 1 5353 1 50 false (.query (ptrQuery 1 1000 [])) [] [120]] ++
+      Ev.rx 1010 2 5353 2 50 false (.query (ptrQuery 2 1010 [])) [(1, { created := 1005, ttl := 4500 })] [20] ::
+      [Ev.qfire 1120 false]) with
+  | error m => rw [hx] at hrun; cases hrun
+  | ok v =>
+    obtain ⟨h', outs⟩ := v
+    rw [hx] at hrun
+    simp only [Except.toOption, Option.map_some, Option.some.injEq] at hrun
+    have := h 1000 [Ev.rx 1000 1 5353 1 50 false (.query (ptrQuery 1 1000 [])) [] [120]] 1010 2 5353 2 50 false (ptrQuery 2 1010 [])
+      [(1, { created := 1005, ttl := 4500 })] [20] [Ev.qfire 1120 false] h' outs
+      (by decide) (by decide) (by decide) hx _ (by decide : asyncResponse [ptrQuery 2 1010 []] (Gen.Reply.ucast_source 5353)
+        [(1, { created := 1005, ttl := 4500 })] = some { ucast := [], mcastNow := [], mcastAgg := [], mcastLast := [(1, [])] })
+      1 { created := 1005, ttl := 4500 } (by decide) (by decide) (by decide) (by decide)
+      (1120, [Out.mcast [1] []], []) (by rw [hrun]; decide) [1] [] (by decide) (by decide)
+    revert this; decide
+
 end Zc.Reply
